@@ -33,6 +33,9 @@ def run_entry(text, entry, judge=None, opts=None, extra_modules=(), guide=None):
     if opts.get('tape') is not None:
         ex.tape = opts['tape']
     ex.max_wall = opts.get('max_wall', 0)
+    ex.preempt_bound = opts.get('preempt_bound', 0)
+    ex.preempt_range = opts.get('preempt_range')
+    ex.race_detect = opts.get('race_detect', False)
     if opts.get('concolic_tape') is not None:
         ex.concolic_tape = opts['concolic_tape']
     if opts.get('alloc_policy') is not None:
